@@ -1171,8 +1171,8 @@ func (w *_listpairsFieldListAssemblerRepr) AssembleValue() datamodel.NodeAssembl
 	case 1:
 		return w.parent.AssembleKey()
 	case 2:
-		asm := w.parent.AssembleValue()
-		return assemblerRepr(asm.(*_assembler))
+		// AssembleValue hands back an error assembler for an unknown field name.
+		return assemblerRepr(w.parent.AssembleValue())
 	default:
 		return _errorAssembler{fmt.Errorf("bindnode: too many values in listpairs field")}
 	}
